@@ -11,6 +11,7 @@ zero-weight ballots in == ("ZeroWeight").  It exists to show that nothing else f
 import random, os, json, itertools, multiprocessing as mp
 from fractions import Fraction as F
 from ..common import Result, OUT, scratch, run_tlc, Machinery, tlc_error_excerpt
+from ..common import fork_pool
 from .. import domains as D
 from ..calltrace import judge_calls
 
@@ -313,7 +314,7 @@ def run(tier, seed, replay=None):
         model_check(res, PID, tier)
         calls = corpus(tier, seed)
     res.evaluations = len(calls)
-    with mp.get_context("fork").Pool(16) as pool:
+    with fork_pool(16) as pool:
         traces = [t for ts in pool.imap_unordered(adt.c11_work, calls, chunksize=32) for t in ts]
     traces.sort(key=adt.trace_key)
     for t in traces:
